@@ -175,6 +175,16 @@ def run(ctx):
     for _ in range(ctx.n(200, 2000)):
         n, v = rng.choice(NAMES), rng.choice(vers)
         rejects.append('%s_%s_%s_%s%s' % (n, v, rng.choice(ARCHS), rng.choice(['signed', 'x', '1', 'all']), rng.choice(BIN_EXT)))
+    # the version part written as other tools store or display it: percent-encoded (apt cache), full-width or
+    # look-alike punctuation, surrounding blanks, a leading "v"
+    for pth in paths[:ctx.n(3000, 30000)]:
+        for a, bs in ((':', ['%3a', '%3A', '%3a ', '\uff1a', ';', '::']), ('~', ['%7e', '%7E', '\u02dc']), ('+', ['%2b', '%2B', ' '])):
+            if a in pth.rsplit('/', 1)[-1]:
+                b0 = pth.rsplit('/', 1)[-1]
+                d0 = pth[:len(pth) - len(b0)]
+                for b in bs:
+                    rejects.append(d0 + b0.replace(a, b))
+                    rejects.append(d0 + b0.replace(a, b, 1))
     rejects = [r for r in rejects if not _accepts(r)] if False else rejects
     should_reject = [r for r in rejects if not _policy_ok(r)]
     fails += ctx.prop('prop:reject', should_reject, p_reject)
